@@ -13,6 +13,10 @@ def validate_encoded(string):
     raise gfapy.FormatError(
       "{} is not a valid hex string\n".format(repr(string))+
       "(it does not match the regular expression [0-9A-F]+)")
+  if len(string) % 2 == 1:
+    raise gfapy.FormatError(
+      "{} is not a valid hex string\n".format(repr(string))+
+      "(it has an odd number of digits)")
 
 def validate_decoded(byte_array):
   return byte_array.validate()
